@@ -193,15 +193,27 @@ def r4(cx, rec):
             rec.need('next(' in a, 'flush-element', f, fb, 'flush sends %s' % a[:60])
             ok, why = C.error_propagates(f, fb)
             rec.need(ok, 'flush-error-ignored', f, fb, 'send error during flush ignored: ' + why)
-        # it runs on unchoke: same function stores choked = false before
-        st = [bi for bi, si, s in f.stores() if (access_path(f.expr_place(s['lhs'])) or '').endswith(V.handler_choked(F)) and const_of(f.expr_rvalue(s['rv'])) and const_of(f.expr_rvalue(s['rv']))[0] == 0]
-        rec.site(f, st[0] if st else None, 'choked := false before the flush')
-        rec.need(bool(st) and all(cb in f.reach_from(s) for s in st), 'flush-not-on-unchoke', f, cb, 'the flush is not tied to the peer unchoking us')
+        # it runs on unchoke: the flushing code, or the only function that calls it, records choked = false first and is
+        # the handler of the Unchoke arm
+        def unchoke_stores(g):
+            return [bi for bi, si, s in g.stores() if (access_path(g.expr_place(s['lhs'])) or '').endswith(V.handler_choked(F))
+                    and const_of(g.expr_rvalue(s['rv'])) and const_of(g.expr_rvalue(s['rv']))[0] == 0]
+        chain = [(f, cb)]
+        cs = C.callers(F, F.owner_fn(f).path)
+        if len({F.owner_fn(g).path for g, gb in cs}) == 1 and not unchoke_stores(f):
+            chain += [(g, gb) for g, gb in cs]
+        tied = False
+        for g, at in chain:
+            st = unchoke_stores(g)
+            if st and all(at in g.reach_from(s) for s in st):
+                tied = True
+                rec.site(g, st[0], 'choked := false before the flush')
+        rec.need(tied, 'flush-not-on-unchoke', f, cb, 'the flush is not tied to the peer unchoking us')
         D, sbs = C.frame_dispatch(F)
         disp = max(sbs, key=lambda s: len(D.cond(s)[1]))
         tgt, region = C.arm_region(D, disp, 'Unchoke')
         called = [t for b, t in C.local_calls(F, D) if b in region or b == tgt]
-        rec.need(F.owner_fn(f).path in called, 'flush-not-in-unchoke-arm', f, cb, 'the flushing function is not the Unchoke handler')
+        rec.need(any(F.owner_fn(g).path in called for g, at in chain), 'flush-not-in-unchoke-arm', f, cb, 'the flushing function is not the Unchoke handler')
     # choked := true only in the Choke arm handler, so buffering matches the peer's state
     for f in F.user_fns():
         for bi, si, s in f.stores():
